@@ -33,6 +33,13 @@ type Dog struct {
 	Twin   *Dog
 }
 
+// PetI is a Go interface all three pet types satisfy: a slice typed by it is neither []interface{} nor a slice of one struct type.
+type PetI interface{ PetKind() string }
+
+func (c *SdbCat) PetKind() string    { return "cat" }
+func (c *BigSdbCat) PetKind() string { return "lion" }
+func (d *Dog) PetKind() string       { return "dog" }
+
 // PetQuery is the query root.
 type PetQuery struct {
 	Pets    []interface{}
@@ -41,6 +48,8 @@ type PetQuery struct {
 	Animal  interface{}
 	Cats    []*SdbCat
 	Lions   []*BigSdbCat
+	Typed   []PetI // [Pet]: a slice typed by a Go interface, mixing the bound types
+	DogCopy Dog    // Dog: a struct VALUE (not a pointer) under an object-typed field
 }
 
 // PetRoot is the root object.
@@ -74,7 +83,8 @@ func PetsModelV(variant int) *model.Schema {
 		{Kind: model.Union, Name: "Animal", Members: members},
 		{Kind: model.Object, Name: "Query", Fields: []*model.FieldDef{
 			f("pets", model.ListOf(model.Named("Pet"))), f("animals", model.ListOf(model.Named("Animal"))), f("pet", model.Named("Pet")), f("animal", model.Named("Animal")),
-			f("cats", model.ListOf(model.Named("Cat"))), f("lions", model.ListOf(model.Named("Lion")))}},
+			f("cats", model.ListOf(model.Named("Cat"))), f("lions", model.ListOf(model.Named("Lion"))),
+			f("typed", model.ListOf(model.Named("Pet"))), f("dogCopy", model.Named("Dog"))}},
 	}
 	return s
 }
@@ -106,9 +116,12 @@ func PetsData(variant int) (*PetRoot, *model.Graph) {
 	k := variant % len(objs)
 	rot := func(a []interface{}) []interface{} { return append(append([]interface{}{}, a[k:]...), a[:k]...) }
 	ro, rn := rot(objs), rot(nodes)
-	q := &PetQuery{Pets: ro, Animals: ro, Pet: ro[0], Animal: ro[1], Cats: []*SdbCat{c1, c2}, Lions: []*BigSdbCat{l1}}
+	q := &PetQuery{Pets: ro, Animals: ro, Pet: ro[0], Animal: ro[1], Cats: []*SdbCat{c1, c2}, Lions: []*BigSdbCat{l1}, DogCopy: *d1}
+	for _, o := range ro {
+		q.Typed = append(q.Typed, o.(PetI))
+	}
 	nq := node("Query", map[string]interface{}{"pets": model.VList(rn), "animals": model.VList(rn), "pet": rn[0], "animal": rn[1],
-		"cats": model.VList{nc1, nc2}, "lions": model.VList{nl1}})
+		"cats": model.VList{nc1, nc2}, "lions": model.VList{nl1}, "typed": model.VList(rn), "dogCopy": nd1})
 	root.F["query"] = nq
 	return &PetRoot{Query: q}, g
 }
